@@ -717,6 +717,14 @@ fn boundaries(cx: &mut Ctx, seed: u64) {
                     let case = CaseSpec { to, calls: vec![call(&s, s.fmt, m, true)], wfault: None, accept: Accept::All, keyed: true, buffered: true, key_text: None, label: format!("boundary/{fmt}/{}nodes", v.nodes()) };
                     cx.run(&case, true);
                 }
+                // the same with the format left to detection (the look-ahead it captured, often more than one
+                // 8 KiB buffer, is replayed in front of the rest of the stream)
+                if detected_as(&s.bytes) == Some(s.fmt) {
+                    for m in [Mode::Reader(Sched::Fixed(4096)), Mode::Reader(Sched::Fixed(1000)), Mode::Slice] {
+                        let case = CaseSpec { to, calls: vec![call(&s, "detect", m, true)], wfault: None, accept: Accept::All, keyed: true, buffered: true, key_text: None, label: format!("boundary-detected/{fmt}/{}nodes", v.nodes()) };
+                        cx.run(&case, true);
+                    }
+                }
             }
         }
     }
